@@ -157,7 +157,13 @@ def gen_install(rng, tier):
                     ops.append("compact L")
                     # the snapshot now covers everything
             r = rng.random()
-            if r < 0.7:
+            if r < 0.15 and behind:
+                # the joiner's log runs ahead of the leader's snapshot when it is installed (async-raft: delete_through =
+                # Some(index)); the leader then sends the entries after the snapshot again
+                ops += ["catchup " + splits(rng, behind), "install L N", "catchup " + splits(rng, behind),
+                        rng.choice(["restart N", "crash N"]), "dumpn"]
+                behind = 0
+            elif r < 0.7:
                 ops.append("install L N")
                 if ops[-2] == "compact L":
                     behind = 0
@@ -179,5 +185,9 @@ def gen_install(rng, tier):
           "req cfgset 3 3", "req cfgrm 1 0", "req cfgset 4 4", "flush 10", "compact L", "req cfgset 5 5", "flush 10",
           "install L N", "catchup 1", "restart N", "dumpn", "req cfgset 6 6", "flush 1", "catchup 1", "restart N", "dumpn"]
     cases.append(Case("install-first-joiner", d1, True, "boundary"))
+    d3 = ["start", "req cfgset 1 1", "req cfgset 2 2", "req cfgset 3 3", "flush 10", "compact L", "req cfgset 4 4", "req cfgset 5 5",
+          "flush 10", "catchup 10", "install L N", "catchup 2", "restart N", "dumpn", "req cfgset 6 6", "flush 1", "catchup 1",
+          "restart N", "dumpn"]
+    cases.append(Case("install-log-ahead", d3, True, "boundary"))
     cases.append(Case("install-fell-behind", d2, True, "boundary"))
     return cases
